@@ -108,6 +108,7 @@ def run_scratch(name, ids, tier):
             print(name, pid, tier, "caught" if rc == 1 else "missed" if rc == 0 else "harness-error", "%.0fs" % (time.time() - t0), flush=True)
             for l in lines[:3]:
                 print("   ", l[:300], flush=True)
+            shutil.rmtree(os.path.join(VERIF, "replays", pid), ignore_errors=True)
     finally:
         sh(["git", "-C", "/repo", "worktree", "remove", "--force", wt])
         shutil.rmtree(wt, ignore_errors=True)
